@@ -3088,6 +3088,10 @@ class Client:
             else:
                 if len(command) == 0:
                     return MQTTErrorCode.MQTT_ERR_CONN_LOST
+                if command[0] == 0:
+                    # Packet type 0 is reserved; 0 is also the "no command read yet"
+                    # marker, so a zero byte must never be stored as a command.
+                    return MQTTErrorCode.MQTT_ERR_PROTOCOL
                 self._in_packet['command'] = command[0]
 
         if self._in_packet['have_remaining'] == 0:
